@@ -247,7 +247,52 @@ def prog(t, qtype, axis, scale, zeropoint):
                 run.add(f"C02/F-codes-in-range[{tag}]/path{pi}", hy, z3.ULE(c1, N), "property", inst, replay=rp, timeout=FT)
 
 
+def zeropoint_F(run):
+    """Bit-precise (float16): for rows of moderate magnitude the zero-point chosen by the real optimizer lies on the grid [0, 2^bits - 1]
+    (so the int8 subtraction of the dequantizer cannot wrap) and the scale is finite and non-negative."""
+    from props.C16 import SRC_W, engine as engine16, fin, finite_inputs
+    from qvc.tm_tensor import reduction_facts
+    QWP = "optimum/quanto/tensor/qweight.py"
+    for bits, qname in ((2, "qint2"), (4, "qint4")):
+        N = (1 << bits) - 1
+        inst = {"bits": bits, "dtype": "float16", "algebra": "F", "lemma": "zero-point on the grid"}
+        E = engine16(run)
+        qt = E.load_module(QTYPE).env.lookup(qname)
+        prog = E.snippet(SRC_W, QWP)
+        n0, n1 = z3.Ints("n0 n1")
+        srt = E.alg.fpsort("float16")
+
+        def setup(E2, qt=qt):
+            E2.assume(n0 >= 2)
+            E2.assume(n1 >= 1)
+            return [new_input(E2, "X", "float16", [n0, n1]), qt], {}
+
+        res = E.explore(prog, setup, name="C02.zpF")
+        run.absorb(E)
+        if not run.expect_paths(res, f"C02/F-zeropoint[{qname}]", inst):
+            continue
+        i = z3.Int("i")
+        for pi, r in enumerate(res):
+            if r.outcome != "return":
+                continue
+            q, d = r.value
+            E.focus(r)
+            zp = q.fields["_zeropoint"].elem([i, 0])
+            sc = q.fields["_scale"].elem([i, 0])
+            reds = E.ps.get("reductions", [])
+            amax = [ri for ri in reds if ri.kind == "amax"][0].res_fn([i])
+            amin = [ri for ri in reds if ri.kind == "amin"][0].res_fn([i])
+            j = z3.Int("j")
+            facts = reduction_facts(E, extra_points=[[i, j]]) + finite_inputs(E, srt, 2)
+            mag = z3.If(z3.fpGT(z3.fpAbs(amax), z3.fpAbs(amin)), z3.fpAbs(amax), z3.fpAbs(amin))
+            moderate = z3.And(z3.fpGEQ(mag, z3.FPVal(2.0**-14 * 256, srt)), z3.fpLEQ(mag, z3.FPVal(65504.0 / 4, srt)))
+            hy = r.hyps + [i >= 0, i < n0, j >= 0, j < n1] + facts + [moderate]
+            run.add(f"C02/F-zeropoint-on-the-grid[{qname}/float16]/path{pi}", hy, z3.And(zp >= 0, zp <= N, fin(sc), z3.fpGT(sc, z3.FPVal(0.0, srt))), "property", inst,
+                    replay=lambda m, s, b=bits: replay(m, s, {"bits": b, "rank": 2, "axis": 0, "grouped": False}), timeout=240)
+
+
 def build(run):
+    lib.lean_lemmas(run, ["group_hints", "inj_bij"])
     from props import conformance
 
     conformance.run_conformance(run, ['affine', 'group'])
@@ -265,7 +310,7 @@ def build(run):
                 f"{QBITS}::QBitsDequantizer.forward", f"{QBITS}::QBitsTensor.create", f"{QBITS}::QBitsTensor.__init__", f"{QBITS}::QBitsTensor.__new__",
                 CG.KEY_GROUP, CG.KEY_UNGROUP):
         run.under_contract(E0, key)
-    for part in (lambda r: CG.verify(r, lambda: r.engine(), "C02/group-contract"), math_lemmas, main_lemma, idempotence_F):
+    for part in (lambda r: CG.verify(r, lambda: r.engine(), "C02/group-contract"), math_lemmas, main_lemma, idempotence_F, zeropoint_F):
         try:
             part(run)
         except Unsupported as u:
